@@ -231,4 +231,60 @@ theorem strip_id (cs : List Char) (h : ∀ c ∈ cs, isBlank c = false) : strip 
   rw [dropWhile_none _ _ h, dropWhile_none _ _ (by simpa using h)]
   simp
 
+theorem natToStr_facts (n : Nat) :
+    natToStr n ≠ [] ∧ (natToStr n).all isDigit = true ∧ (natToStr n).map charDigit = toDec n ∧
+    (natToStr n).head? ≠ some '-' ∧ (natToStr n).head? ≠ some '+' := by
+  have hlt := toDec_lt10 n
+  have hne := toDec_ne_nil n
+  unfold natToStr
+  refine ⟨by simpa using hne, ?_, map_charDigit_digitChar _ hlt, ?_, ?_⟩
+  · rw [List.all_eq_true]
+    intro c hc
+    obtain ⟨d, hd, rfl⟩ := List.mem_map.1 hc
+    exact isDigit_digitChar d (hlt d hd)
+  · cases h : toDec n with
+    | nil => exact absurd h hne
+    | cons d ds =>
+      simp only [List.map_cons, List.head?_cons, ne_eq, Option.some.injEq]
+      exact (not_sign_digitChar d (hlt d (by rw [h]; simp))).1
+  · cases h : toDec n with
+    | nil => exact absurd h hne
+    | cons d ds =>
+      simp only [List.map_cons, List.head?_cons, ne_eq, Option.some.injEq]
+      exact (not_sign_digitChar d (hlt d (by rw [h]; simp))).2
+
+/-- `int(str(n)) == n` for every natural number -/
+theorem parseInt_natToStr (n : Nat) : parseInt (natToStr n) = some (n : Int) := by
+  obtain ⟨hne, hall, hmap, hm, hp⟩ := natToStr_facts n
+  cases hs : natToStr n with
+  | nil => exact absurd hs hne
+  | cons c rest =>
+    rw [hs] at hall hmap hm hp
+    simp only [List.head?_cons, ne_eq, Option.some.injEq] at hm hp
+    unfold parseInt
+    split
+    · rename_i heq; cases heq
+    · rename_i r heq
+      have : c = '-' := by injection heq with h1 h2
+      exact absurd this hm
+    · rename_i r heq
+      have : c = '+' := by injection heq with h1 h2
+      exact absurd this hp
+    · rw [if_pos hall, hmap, decVal_toDec]
+
+/-- **`int(str(z)) == z` for every Python int, of any size and sign** -/
+theorem parseInt_intToStr (z : Int) : parseInt (intToStr z) = some z := by
+  unfold intToStr
+  by_cases hz : z < 0
+  · rw [if_pos hz]
+    obtain ⟨hne, hall, hmap, _, _⟩ := natToStr_facts z.natAbs
+    unfold parseInt
+    simp only
+    rw [if_pos ⟨hne, hall⟩, hmap, decVal_toDec]
+    congr 1
+    omega
+  · rw [if_neg hz, parseInt_natToStr]
+    congr 1
+    omega
+
 end Odf.Coord
